@@ -23,6 +23,9 @@ def check(ctx, rep):
     ci = prog.cls("CancelOnShutdownExecutor")
     SELF = ("param", "self")
     helper, lockfield = helper_lock_field(ctx)
+    # the gate itself: refusing and flag flipping are atomic with respect to each other (shared with C11)
+    from .c11 import check_helper
+    check_helper(ctx, rep, helper, lockfield)
     sm = ci.methods.get("submit")
     sh = ci.methods.get("shutdown")
     rep.require(sm is not None and sh is not None, "CancelOnShutdownExecutor.submit / shutdown not found")
